@@ -333,6 +333,29 @@ def r3_generation_after_validation(ctx):
     chk = [m for m, s in cfg.stmt.items() if s is not None and any(isinstance(c, ast.Call) and U(c.func) in ("self._get_leaspy_model", "self._check_logistic_model") for c in header_walk(s))]
     gm = ix.func(SIM, f"{CLS}._get_leaspy_model", "C18.R3")
     ctx.check("self._check_logistic_model(model)" in U(gm.node), "C18.R3", gm, gm.node, "_get_leaspy_model checks the model kind", "_get_leaspy_model no longer checks the model kind", construct="model kind check")
+    # what the check accepts: the documented requirement is the logistic model itself - a test by `isinstance` also lets its subclasses through
+    # (the joint model), whose simulation then fails midway with another error
+    ck = ix.func(SIM, f"{CLS}._check_logistic_model", "C18.R3")
+    ccfg = CFG(ck.node)
+    tests = [ccfg.stmt[h].test for r_ in ccfg.nodes(lambda s_: isinstance(s_, ast.Raise)) for h, lab in ccfg.if_guards(r_)]
+    if not tests:
+        ctx.violation("C18.R3", ck, ck.node, "_check_logistic_model no longer refuses anything", construct="model kind test")
+    for t_ in tests:
+        exact = U(t_) in ("model.__class__.__name__ != 'LogisticModel'", "type(model).__name__ != 'LogisticModel'", "type(model) is not LogisticModel", "model.__class__ is not LogisticModel",
+                          "not type(model) is LogisticModel", "type(model) != LogisticModel")
+        inst = [c for c in ast.walk(t_) if isinstance(c, ast.Call) and U(c.func) == "isinstance" and len(c.args) == 2]
+        if exact:
+            ctx.ok("C18.R3", ck, t_, "the model must be exactly a LogisticModel", construct="model kind test")
+        elif inst:
+            key = ix.find_class(U(inst[0].args[1]).split(".")[-1]) if hasattr(ix, "find_class") else None
+            subs = [k for k in (ix.subclasses(key) if key is not None else []) if k != key]
+            if subs:
+                ctx.violation("C18.R3", ck, t_, f"`{U(t_)[:70]}` also accepts the subclasses of {key[1]} ({', '.join(k[1] for k in subs[:3])}): such a model is not refused before anything is generated, "
+                              "and its simulation fails midway with another error than the documented algorithm-input error", construct="model kind test")
+            else:
+                ctx.ok("C18.R3", ck, t_, f"isinstance test on a class without subclasses", construct="model kind test")
+        else:
+            ctx.unknown("C18.R3", ck, t_, f"model kind test `{U(t_)[:70]}` not recognised", construct="model kind test")
     gens = [(m, c) for m, s in cfg.stmt.items() if s is not None for c in header_walk(s) if isinstance(c, ast.Call) and U(c.func) in (
         "self._sample_individual_parameters_from_model_parameters", "self._generate_visit_ages", "self._generate_dataset")]
     if len(gens) < 3:
